@@ -361,6 +361,13 @@ func (c *cmp) checkEvent(i int, lim Limits, want mEvent, got sdktrace.Event) {
 	if !listPrefixOK(lim.ValueLen, want.offered, user) {
 		c.bad("error_event_user_attrs", "event %d: caller attributes %s are not a prefix of %s", i, render(user), render(want.offered))
 	}
+	// The per-event cap keeps the FIRST N attributes of the event, and the
+	// caller's attributes (options in call order) come before the ones
+	// RecordError synthesises: under the cap the synthesized exception.*
+	// attributes never displace a caller attribute.
+	if wantUser := min(len(want.offered), want.kept); len(user) != wantUser {
+		c.bad("error_event_user_attrs", "event %d: %d of the caller's %d attributes kept under a per-event limit of %d (%d attributes kept in all): the first %d were expected; got %s", i, len(user), len(want.offered), lim.PerEvent, want.kept, wantUser, render(got.Attributes))
+	}
 }
 
 func (c *cmp) checkLink(i int, lim Limits, want mLink, got sdktrace.Link) {
